@@ -340,7 +340,7 @@ static uint64_t upair(int a, int b) { return ((uint64_t)std::min(a, b) << 32) | 
 // compare a connection vector a->b reported by the library with the oracle
 static const char *check_vec(const Config &C, const Oracle &O, int a, int b, const Eigen::Vector3d &r, double d) {
   const PairInfo &q = O.pi(a, b);
-  if (q.nties == 0) return nullptr;  // pruned pair (far beyond the cutoff) - reported separately
+  if (q.nties == 0 || q.st == ST_OUT) return nullptr;  // beyond the cutoff: reported separately as spurious
   LD tol = 64 * EPS * C.M;
   V3 e = a < b ? q.v : (LD)-1 * q.v;
   V3 rr = ld(r);
@@ -415,10 +415,8 @@ static void run_pairs(const char *fam, const Config &C, const Oracle &O, Topolog
       if (q.st == ST_IN) {
         n_in++;
         if (k == 0) {
-          if (C.do_excl && O.shares(i, j))
-            R.violation(F + "/pair-suppressed-across-molecules", "pair of different molecules suppressed as excluded", wit(i, j));
-          else
-            R.violation(F + "/pair-missed", "pair within the cutoff (minimum image) was not delivered", wit(i, j));
+          R.violation(F + "/pair-missed", "pair within the cutoff (minimum image), not excluded, was not delivered",
+                      wit(i, j).b("shares_interaction_across_molecules", C.do_excl && O.shares(i, j)));
         } else if (k > 1)
           R.violation(F + "/pair-delivered-twice", "pair delivered to the match callback more than once", wit(i, j).i("deliveries", k));
         else {
